@@ -139,7 +139,7 @@ class SchemaGen:
             base, lt = r.choice([x for x in LOGICALS if x[0] != "fixed"])
             js = {"type": base, "logicalType": lt}
             if lt == "decimal":
-                p = r.randint(1, 20)
+                p = r.choice([r.randint(1, 20), r.randint(1, 38)])
                 js["precision"] = p
                 js["scale"] = r.randint(0, p)
             self.features.add("logical")
